@@ -119,7 +119,11 @@ def step (st : St) (line : String) : St × String :=
       let inScope := nodeWF st.node &&
         st.acl.fabrics.all (fun f => f.acl.all (fun e => Driver.C05.canonicalPriv e.privilege))
       let spec := fmtOuts op (expected ctx op st.node paths)
-      if out.startsWith "panic" ∨ (out.splitOn "HANG").length > 1 then (st, s!"ORA {out}")
+      -- `resume_endpoint_index` debug-asserts `Node`'s documented invariant (endpoints strictly
+      -- ascending); a panic on a node violating it is the stated precondition, not a finding
+      let sorted : Bool := decide ((st.node.map (·.id)).Pairwise (· < ·))
+      if out.startsWith "panic" && !sorted then (st, "ok")
+      else if out.startsWith "panic" ∨ (out.splitOn "HANG").length > 1 then (st, s!"ORA {out}")
       else if inScope && spec ≠ out then (st, s!"ORA spec=[{spec}]")
       else if model = out then (st, "ok") else (st, s!"DIS {model}")
     | _, _, _, _, _, _ => (st, "BAD x")
